@@ -218,7 +218,6 @@ func c07CheckRegion(when string, addr uintptr, size uint64, prevCursor uintptr, 
 	return nil
 }
 
-
 func c07GenOp(t *rapid.T) c07Op {
 	op := c07Op{Kind: rapid.SampledFrom([]string{"reserve", "reserve", "reserve", "mapRegion", "mapRegion", "identityMap"}).Draw(t, "kind")}
 	switch rapid.IntRange(0, 9).Draw(t, "sizeclass") {
@@ -298,6 +297,7 @@ func TestVerifC07Tables(t *testing.T) {
 	defer vmRestore()
 	rapid.Check(t, func(t *rapid.T) {
 		c := c04Case{Spaces: 1}
+		c.Hi, c.RootFlags = vmGenPhys(t)
 		n := rapid.IntRange(1, 14).Draw(t, "nops")
 		for i := 0; i < n; i++ {
 			op := c04GenOp(t, 1)
